@@ -7,9 +7,9 @@
    Go scheduler runs the 1 s watchdog on time, that closing the control connection releases
    listeners within a bounded real time, that a login attempt itself terminates in bounded time. *)
 From Coq Require Import ZArith List Bool Lia.
-From FRP Require Import Model.Heartbeat Model.Backoff Model.Relogin Model.CliDispatch
+From FRP Require Import Model.Heartbeat Model.Backoff Model.Relogin Model.CliDispatch Model.SrvTeardown Model.PingAuth
   Proofs.HeartbeatProofs Proofs.BackoffProofs Proofs.ReloginProofs
-  gen.GenBackoffOpts Proofs.GenBackoffProofs Proofs.GenCliDispatch Proofs.CliDispatchProofs.
+  gen.GenBackoffOpts Proofs.GenBackoffProofs Proofs.GenCliDispatch Proofs.CliDispatchProofs Proofs.SrvTeardownProofs Proofs.PingAuthProofs.
 Import ListNotations.
 Open Scope Z_scope.
 
@@ -78,6 +78,59 @@ Theorem C14_client_heartbeat_enabled_iff : forall tcpmux i t,
   ((i > 0 \/ (i = 0 /\ tcpmux = false)) /\ (t > 0 \/ (t = 0 /\ tcpmux = false))).
 Proof. exact gen_hb_client_enabled_iff. Qed.
 Print Assumptions C14_client_heartbeat_enabled_iff.
+
+(* ---- "with all its resources released": no registration outlives the teardown ---- *)
+(* Model/SrvTeardown.v: the server's read loop handles NewProxy in place (t14: gen_srv_async_newproxy = false) and
+   doneCh is closed by that loop only, after the handler returned.  Hence, for EVERY sequence of NewProxy
+   arrivals, every duration of the plugin chain / listener set-up and every instant at which the connection
+   ends (peer gone, heartbeat watchdog), no registration lands after the teardown, and the teardown releases
+   every registration that was started.  (So the names and ports are free when the client comes back:
+   the premise of "re-registers all configured proxies".) *)
+Theorem C14_no_registration_outlives_teardown : forall l free cut,
+  (forall r, In r l -> 0 <= sr_dur r) ->
+  st_leaked (st_run gen_srv_async_newproxy free cut l) = [].
+Proof. exact st_today_never_leaks. Qed.
+Print Assumptions C14_no_registration_outlives_teardown.
+
+Theorem C14_teardown_releases_every_started_registration : forall l free cut regs free',
+  (forall r, In r l -> 0 <= sr_dur r) ->
+  st_loop gen_srv_async_newproxy free cut l = (regs, free') ->
+  st_released (st_run gen_srv_async_newproxy free cut l) = map snd regs.
+Proof. exact st_today_releases_all. Qed.
+Print Assumptions C14_teardown_releases_every_started_registration.
+
+Theorem C14_server_dispatcher_in_source :
+  gen_srv_async_newproxy = false /\ gen_srv_async_closeproxy = false /\ gen_srv_async_ping = false /\
+  gen_dispatcher_handlers_called_in_read_loop = true /\ gen_dispatcher_done_closed_by_read_loop_only = true.
+Proof. repeat split; reflexivity. Qed.
+Print Assumptions C14_server_dispatcher_in_source.
+
+(* the model is sensitive to it: NewProxy at 1 s, plugin + listen 2.5 s, connection closed at 3 s *)
+Theorem C14_async_newproxy_would_leak :
+  st_leaked (st_run true 0 3000 [{| sr_at := 1000; sr_name := 1; sr_dur := 2500 |}]) = [1] /\
+  st_leaked (st_run gen_srv_async_newproxy 0 3000 [{| sr_at := 1000; sr_name := 1; sr_dur := 2500 |}]) = [] /\
+  st_released (st_run gen_srv_async_newproxy 0 3000 [{| sr_at := 1000; sr_name := 1; sr_dur := 2500 |}]) = [1].
+Proof. exact st_async_would_leak. Qed.
+Print Assumptions C14_async_newproxy_would_leak.
+
+(* ---- which heartbeats are valid under auth.method = oidc with the HeartBeats scope ---- *)
+(* The verifier is shared by all sessions (Model/PingAuth.v).  An identity that has logged in is remembered for
+   good: every later (verified) ping of that identity is accepted, whatever other identities log in or ping
+   in between, so by C14_live_peer_never_torn_down several clients with different identities never make
+   each other's sessions flap.  t14: VerifyLogin only ever appends to subjectsFromLogin. *)
+Theorem C14_oidc_logged_in_identity_always_accepted : forall evs subjects x,
+  pa_mem x subjects = true ->
+  forall v, In (x, v) (pa_run subjects evs) -> v = true.
+Proof. exact pa_remembered_forever. Qed.
+Print Assumptions C14_oidc_logged_in_identity_always_accepted.
+
+Theorem C14_oidc_login_remembers_identity : forall subjects s, pa_mem s (pa_login subjects s) = true.
+Proof. exact pa_login_adds. Qed.
+Print Assumptions C14_oidc_login_remembers_identity.
+
+Theorem C14_oidc_verifier_in_source : gen_oidc_login_only_appends_subject = true.
+Proof. reflexivity. Qed.
+Print Assumptions C14_oidc_verifier_in_source.
 
 (* ---- invalid pings ---- *)
 (* the state after any history equals the state after the same history with the invalid pings
